@@ -11,9 +11,13 @@ ROOT = Path(__file__).resolve().parents[1]
 sys.path.insert(0, str(ROOT / "lib"))
 
 props = [json.loads(l) for l in open(ROOT / "properties.jsonl")]
+claimed = set((ROOT / "lib" / "claimed.txt").read_text().split())
 checks, na = [], []
 for p in props:
     pid = p["id"]
+    if pid not in claimed:
+        na.append({"property_id": pid, "reason": "check still being built/integrated (see DESIGN.md section 5); not claimed yet"})
+        continue
     try:
         mod = importlib.import_module("props." + pid)
         meta = getattr(mod, "META", None)
